@@ -364,9 +364,9 @@ func attemptRealClientCase(rc realClientCase, probe *noiseProbe) c14Result {
 				handlerMayBlock = true
 			}
 		}
-		if !handlerMayBlock && !e.waitDone(5*time.Second) {
+		if !handlerMayBlock && !e.waitDone(30*time.Second) {
 			return c14Result{Verdict: "violation", Key: keyBase + "not-stopped",
-				What: fmt.Sprintf("timeout error %q reported but DoneChan still open 5s later", err), Obj: obj(snap, map[string]any{"goroutines": goroutineDump()})}
+				What: fmt.Sprintf("timeout error %q reported but DoneChan still open 30s later", err), Obj: obj(snap, map[string]any{"goroutines": goroutineDump()})}
 		}
 		return c14Result{Verdict: "pass", Named: strings.Contains(err.Error(), rc.State)}
 	}
